@@ -9,7 +9,7 @@
 (*      open-node state is left behind;                                      *)
 (*   G  the input is printed with the machine's tree (DRIFT comparison) and  *)
 (*      what the as-is machine (all deviation switches on) would leave.      *)
-EXTENDS Parser, WikiTree, Json
+EXTENDS Parser, WikiTree, Json, TagToken
 
 CONSTANTS Universe, MaxLen
 
@@ -131,8 +131,41 @@ LineSeq ==
           LinePrefixes[((k - 1) \div Len(LineBodies)) + 1] \o LineBodies[((k - 1) % Len(LineBodies)) + 1]]
 NumLines(d) == IF d = <<>> THEN 0 ELSE 1 + Len(SelectSeq(d, LAMBDA c : c = "NL"))
 
+(* Tag-token universes ("tagtok*", round 8): the INSIDE of one tag token varies   *)
+(* character by character (spec/TagToken.tla).  doc = <<context, head>> \o tail:  *)
+(* the document is the context's text around the string "<" head tail ">", the    *)
+(* tail is every sequence over the tag-character alphabet up to the bound of the *)
+(* context (unquoted values with "=", quotes, backtick, "/", "<", punctuation,   *)
+(* doubled "=", missing values, odd attribute names, blanks / a newline inside   *)
+(* the tag, mismatched quotes; also for end tags).  M: TokenConsistent on the    *)
+(* candidate and MachineOK on the token sequence the tokenizer model yields.     *)
+IsTagUniverse == Universe \in {"tagtok", "tagtokT", "tagtokN"}
+TagAlpha10 == {"span", "=", "\"", "'", "`", "/", " ", "NL", "(", "<"}
+TagAlpha13 == TagAlpha10 \cup {"-", ":", "_"}
+TagCtxs == {"cTOP", "cLI", "cCELL", "cHEAD"}
+TagHeads == {"hS", "hE", "hA"}
+\* quick: running text with tails <= 3, the other contexts with tails <= 2;
+\* thorough: tagtokN = every context with tails <= 3, tagtokT = running text, 10 characters, tails <= 4
+TagAlpha(ctx) == IF Universe = "tagtokT" THEN TagAlpha10 ELSE TagAlpha13
+TagBound(ctx) ==
+  CASE Universe = "tagtok"  -> (IF ctx = "cTOP" THEN 3 ELSE 2)
+    [] Universe = "tagtokT" -> (IF ctx = "cTOP" THEN 4 ELSE 0)
+    [] OTHER -> 3
+\* one newline at most, none in a heading line; no two apostrophes in a row (that dimension - bold / italic
+\* runs - belongs to the chunk universes)
+TagTailOK(d) ==
+  /\ Cardinality({i \in 3..Len(d) : d[i] = "NL"}) <= (IF d[1] = "cHEAD" THEN 0 ELSE 1)
+  /\ LET t == SelectSeq(SubSeq(d, 3, Len(d)), LAMBDA c : c # "NL") IN       \* (a newline inside a tag is deleted)
+     \A i \in 1..(Len(t) - 1) : ~(t[i] = "'" /\ t[i + 1] = "'")
+TagParse(d, Dev) == IF d = <<>> THEN Parse(d, Dev) ELSE Finish(Feed(InitState(Dev), CtxToks(d[1], TagString(d)), 1))
+ParseU(d, Dev) == IF IsTagUniverse THEN TagParse(d, Dev) ELSE Parse(d, Dev)
+
 VARIABLES doc
 Init == doc = <<>>
+NextTag == \/ /\ doc = <<>>
+              /\ \E c \in TagCtxs, h \in TagHeads : TagBound(c) > 0 /\ doc' = <<c, h>>
+           \/ /\ doc # <<>> /\ Len(doc) - 2 < TagBound(doc[1])
+              /\ \E a \in TagAlpha(doc[1]) : doc' = Append(doc, a) /\ TagTailOK(doc')
 NextChunk == /\ Len(doc) < MaxLen
              /\ \E c \in Chunks : doc' = Append(doc, c)
 NextLine == /\ NumLines(doc) < MaxLen
@@ -141,25 +174,33 @@ NextLine == /\ NumLines(doc) < MaxLen
                  /\ doc # <<>> \/ (l # <<>>          \* (a leading blank line adds nothing)
                                    /\ k % LineU.of = LineU.part)
                  /\ doc' = IF doc = <<>> THEN l ELSE doc \o <<"NL">> \o l
-Next == IF IsLineUniverse THEN NextLine ELSE NextChunk
+Next == IF IsTagUniverse THEN NextTag ELSE IF IsLineUniverse THEN NextLine ELSE NextChunk
 Spec == Init /\ [][Next]_doc
 
 \* what parse() leaves behind / returns, as far as the property constrains it
 Obs(res) == [faults |-> SetToSeq(Faults(ToWiki(res.root))), stuck |-> res.stuck, stack |-> res.stack, pre |-> res.pre]
 Clean(obs) == obs.faults = <<>> /\ ~obs.stuck /\ obs.stack = 0 /\ ~obs.pre
 
+\* tag-token universes: the text of the document, the candidate and what the two sites make of it
+TagInfo(d) ==
+  IF ~IsTagUniverse \/ d = <<>> THEN [doc |-> d]
+  ELSE LET cand == Candidate(TagString(d)) IN
+       [doc |-> d, text |-> CtxText(d[1], TagString(d)), cand |-> JoinS(cand), cls |-> Class(cand),
+        tok |-> TokAccepts(cand), fn |-> FnAccepts(cand)]
+TagLawOK(d) == ~IsTagUniverse \/ d = <<>> \/ TokenConsistent(Candidate(TagString(d)))
 Case ==
-  \E ideal \in { Parse(doc, {}) } :
-  \E asis \in { Parse(doc, AsIsDevs) } :
+  \E ideal \in { ParseU(doc, {}) } :
+  \E asis \in { ParseU(doc, AsIsDevs) } :
   \E oi \in { Obs(ideal) } :
-    LET base == [doc |-> doc, tree |-> ideal.root] IN
+    LET base == TagInfo(doc) @@ [tree |-> ideal.root] IN
     /\ PrintT(<<"CASE", ToJson(IF asis.root # ideal.root \/ asis.pre # ideal.pre
                                  THEN base @@ [treeA |-> asis.root, obsA |-> Obs(asis)]
                                  ELSE base)>>)
     /\ Clean(oi)
+    /\ TagLawOK(doc)
 MachineOK == Case
 
 \* Demo: the as-is machine against the same requirement
-AsIsWellFormed == Obs(Parse(doc, AsIsDevs)).faults = <<>>
-AsIsFlagsClean == ~Parse(doc, AsIsDevs).pre
+AsIsWellFormed == Obs(ParseU(doc, AsIsDevs)).faults = <<>>
+AsIsFlagsClean == ~ParseU(doc, AsIsDevs).pre
 =============================================================================
